@@ -143,6 +143,14 @@ def nontrivial(case):
     return case.route in ("triple", "whole") or case.p["t"] > 0
 
 
+def fill_default_container(R):
+    """what a caller may do before measuring distances: a default-constructed DCM used as a container and filled column by column"""
+    from ahrs.common.dcm import DCM
+    D = DCM()
+    D[:, 0], D[:, 1], D[:, 2] = R[:, 0], R[:, 1], R[:, 2]
+    return np.array(D, float)
+
+
 def check_pair(case, ctx):
     from ahrs.utils import metrics as M
     q1, ax, t, g, sc = case.p["q1"], case.p["axis"], case.p["t"], case.p["g"], case.p["scale"]
@@ -157,7 +165,8 @@ def check_pair(case, ctx):
             if name in MATRIX:
                 if form == "negated":
                     continue
-                out = call(lambda: fn(rq.refR(a), rq.refR(b)))
+                # (the first matrix of the "as is" form passes through a default-constructed DCM filled in place, as a caller assembling it column by column would)
+                out = call(lambda: fn(fill_default_container(rq.refR(a)) if form == "as is" else rq.refR(a), rq.refR(b)))
             else:
                 out = call(lambda: fn(a.copy() * (sc if form == "as is" else 1.0), b.copy()))   # quaternion metrics normalise their input
             if not ctx.returned(out, route=name):
